@@ -24,7 +24,8 @@ MANIFEST = {
             '  Second session: 30% of the bound non-final tasks already carry an error record (non-zero exit on its way through output staging) when their pilot dies: the explanation must still name the pilot.'
             '  A third of the tasks carry an optional description attribute (restartable, stage_on_error, metadata, tags, priority, cleanup, name): none exempts a task from the rule.'
             '  Waiting tasks are bound to a living pilot between the pilot events (late binding, no submission in between).'
-            '  Pilots may be taken out of the task manager (remove_pilots) shortly before they end.',
+            '  Pilots may be taken out of the task manager (remove_pilots) shortly before they end.'
+            '  Third workload: the application closes the pilot manager (real PilotManager.close(terminate=True)); a launcher stand-in answers cancel_pilots / kill_pilots with the CANCELED notifications on a second thread; the same own-task / bystander oracle is applied after close() returns.',
     'note': 'facades are built with __new__ (upstream test idiom); the '
             'callback is registered by the real add_pilots; sampled, not '
             'enumerated.'}
@@ -37,7 +38,7 @@ RULE   = ('seeded cases: 2-4 pilots, 1-8 tasks each in a random state of the '
 ASSUMPTIONS = ['a task is bound to a pilot when Task.pilot equals the pilot uid']
 SHARDS   = {'quick': 8, 'thorough': 16}
 REQUIRED = {'pilot_deaths': 500, 'own_tasks_checked': 300,
-            'bystanders_checked': 1000}
+            'bystanders_checked': 1000, 'own_tasks_checked_at_close': 5}
 
 _V     = rps._task_state_values
 _ORDER = [None] * 16
@@ -377,6 +378,146 @@ def run_submit_race(case, res):
                                                     bad[:3]), ctx)
 
 
+# ------------------------------------------------------------------------------
+# (c) the application closes the pilot manager
+#
+# `PilotManager.close(terminate=True)` cancels and kills the manager's pilots
+# itself.  The launcher answers with the pilots' CANCELED notifications, which
+# arrive on the state subscriber thread while the closing thread sits in
+# `wait_pilots`.  These pilots are final like any other: the non-final tasks
+# bound to them end FAILED and name the pilot, nothing else changes.
+#
+def run_close(case, res):
+    import time
+    import threading as mt
+
+    pm = make_pmgr()
+    tm = make_tmgr()
+    pilots = {pid: make_pilot(pm, pid) for pid in case['pids']}
+    tm.add_pilots(list(pilots.values()))
+
+    class _Cmgr(object):
+        def close(self): pass
+    pm._cmgr        = _Cmgr()
+    pm._term        = mt.Event()
+    pm._subscribers = dict()
+    pm.dump         = lambda name=None: None
+
+    # an application callback on the manager and one on a pilot
+    seen = list()
+    pm.register_callback(lambda p, s: seen.append((p.uid, s)))
+
+    tasks = dict()
+    for t in case['tasks']:
+        task = make_task(tm, t['uid'])
+        tasks[t['uid']] = task
+        d = {'uid': t['uid'], 'type': 'task', 'state': t['state']}
+        if t['pilot']:
+            d['pilot'] = t['pilot']
+        tm._update_tasks([d])
+        if task.state != t['state']:
+            res.inconc('could not drive %s to %s' % (t['uid'], t['state']))
+            return
+
+    # pilots which ended before the close
+    for pid in case['ended']:
+        pm._state_sub_cb(rpc.STATE_PUBSUB, {'cmd': 'update', 'arg': [
+                    {'uid': pid, 'type': 'pilot', 'state': rps.DONE}]})
+    before = {u: snap(t) for u, t in tasks.items()}
+
+    errs    = list()
+    threads = list()
+    def launcher(topic, msg):
+        # the pmgr launcher component: enacts the command, reports the states
+        if msg.get('cmd') != case['answer_to']:
+            return
+        uids = list(msg['arg']['uids'])
+        def report():
+            time.sleep(case['delay'])
+            try:
+                upd = [{'uid': uid, 'type': 'pilot', 'state': rps.CANCELED}
+                       for uid in uids if uid not in case['ended']]
+                if case['bulk']:
+                    pm._state_sub_cb(rpc.STATE_PUBSUB, {'cmd': 'update',
+                                                        'arg': upd})
+                else:
+                    for u in upd:
+                        pm._state_sub_cb(rpc.STATE_PUBSUB, {'cmd': 'update',
+                                                            'arg': [u]})
+            except Exception as e:
+                errs.append(repr(e))
+        th = mt.Thread(target=report, name='pmgr-state-sub', daemon=True)
+        threads.append(th)
+        th.start()
+    pm._publishers[rpc.CONTROL_PUBSUB].sink = launcher
+
+    exc = None
+    try:
+        pm.close(terminate=True)
+    except Exception as e:
+        exc = e
+    for th in threads:
+        th.join(timeout=30)
+
+    res.count('close_histories')
+    ctx = {'case': case, 'errors': errs,
+           'exception': repr(exc) if exc else None}
+    if any(th.is_alive() for th in threads):
+        res.inconc('close: the reporting thread did not finish')
+        return
+    if not threads:
+        res.inconc('close: no %s command was published' % case['answer_to'])
+        return
+    if exc or errs:
+        res.violation('close/raised', 'close %r, state updates %r'
+                                      % (exc, errs), ctx)
+        return
+    for pid, p in pilots.items():
+        if p.state not in FINAL_STATES:
+            res.inconc('close: %s not final (%s)' % (pid, p.state))
+            return
+
+    for u, task in tasks.items():
+        b, a = before[u], snap(task)
+        pid  = b['pilot']
+        if pid and pid not in case['ended'] and b['state'] not in FINAL_STATES:
+            res.count('own_tasks_checked')
+            res.count('own_tasks_checked_at_close')
+            if a['state'] != rps.FAILED:
+                res.violation('own-task-not-failed/close',
+                              '%s on %s, which pmgr.close() terminated: %s'
+                              % (u, pid, a['state']), ctx)
+            elif pid not in (str(a['exception']) + str(a['exception_detail'])):
+                res.violation('no-explanation',
+                              '%s failed without naming %s: %r / %r'
+                              % (u, pid, a['exception'],
+                                 a['exception_detail']), ctx)
+        else:
+            res.count('bystanders_checked')
+            if a != b:
+                res.violation('bystander-changed/close',
+                              '%s (pilot %s) changed in pmgr.close(): %s -> %s'
+                              % (u, pid, b, a), ctx)
+
+
+def gen_close_case(rng):
+    n_p  = rng.randint(1, 3)
+    pids = ['pilot.%04d' % i for i in range(n_p)]
+    tasks = list()
+    for i in range(rng.randint(1, 6)):
+        pid = rng.choice(pids + [None])
+        st  = rng.choice(_ORDER + [rps.FAILED, rps.CANCELED]) if pid else \
+              rng.choice([rps.NEW, rps.TMGR_SCHEDULING_PENDING,
+                          rps.TMGR_SCHEDULING, rps.CANCELED])
+        tasks.append({'uid': 't.%d' % i, 'pilot': pid, 'state': st})
+    return {'kind': 'close', 'pids': pids, 'tasks': tasks,
+            'ended': [p for p in pids[1:] if rng.random() < 0.3],
+            'answer_to': 'cancel_pilots' if rng.random() < 0.9
+                                         else 'kill_pilots',
+            'bulk': rng.random() < 0.5,
+            'delay': rng.choice([0.0, 0.001, 0.01])}
+
+
 def run(ctx):
 
     res = Result()
@@ -388,6 +529,15 @@ def run(ctx):
         run_submit_race(case, res)
         res.evaluations += 1
         if len(res.violations) > 30:
+            break
+
+    rng = ctx.rng('close')
+    for i in range(ctx.n(150, 20000)):
+        case = gen_close_case(rng)
+        res.evaluations += 1
+        n0 = len(res.violations)
+        run_close(case, res)
+        if len(res.violations) > 30 or res.inconclusive:
             break
 
     rng = ctx.rng('cases')
@@ -416,6 +566,10 @@ def replay(case, ctx):
             run_submit_race(case['case'], res)
             if res.violations:
                 break
+        res.evaluations = 1
+        return res
+    if case['case'].get('kind') == 'close':
+        run_close(case['case'], res)
         res.evaluations = 1
         return res
     run_case(case['case'], res)
